@@ -17,6 +17,14 @@
 //         num_neighbors target_dimension diffusion_map_timesteps max_iteration spe_num_updates (int)
 //         gaussian_kernel_width spe_tolerance landmark_ratio nullspace_shift fa_epsilon sne_perplexity
 //         sne_theta squishing_rate (double)   spe_global_strategy check_connectivity (0/1)
+//         seed (optional, unsigned): srandom(seed) + tapkee::verif_shuffle_reseed(seed) (hook H1) before the call
+//
+// Random numbers.  The library draws from std::rand() and, for shuffles, from std::random_device unless hook H1
+// is seeded.  With C20_SEED=<n> in the environment `c20 cli` seeds both generators with n before the tool's
+// main() runs, and the tool's own `srand(time(NULL))` is answered with the same n (srand is interposed below:
+// nothing of src/cli is edited, the call lands in this translation unit because the executable's symbols come
+// first).  `c20 lib` does the same before each case that carries seed=<n>.  Tool and in-process reference then
+// see the same random stream, so the randomised methods can be compared on their output too.
 // output per case:  BEGIN <index> / EMB <rows> <cols> / rows... / [PM r c / rows... / PV n / values...] /
 //                   or EXC <what> / END
 #define main tapkee_cli_main
@@ -29,6 +37,26 @@
 #include <map>
 #include <sstream>
 #include <string>
+
+namespace c20
+{
+static bool seed_override = false;
+static unsigned seed_value = 0;
+static unsigned long srand_calls = 0;
+
+static void reseed(unsigned seed)
+{
+    ::srandom(seed);
+    tapkee::verif_shuffle_reseed(seed);
+}
+} // namespace c20
+
+// interposes glibc's srand for this executable (rand() keeps using glibc's state, which srandom sets)
+extern "C" void srand(unsigned int seed) noexcept
+{
+    c20::srand_calls++;
+    ::srandom(c20::seed_override ? c20::seed_value : seed);
+}
 
 namespace c20
 {
@@ -143,6 +171,8 @@ static int run_case(const std::string& line)
         tapkee::sne_theta = R("sne_theta"),
         tapkee::squishing_rate = R("squishing_rate")
     )];
+    if (kv.count("seed"))
+        reseed(static_cast<unsigned>(std::strtoul(kv["seed"].c_str(), nullptr, 10)));
     tapkee::TapkeeOutput output = tapkee::with(parameters).embedUsing(features);
     std::cout << "EMB " << output.embedding.rows() << ' ' << output.embedding.cols() << '\n';
     print_matrix(output.embedding);
@@ -199,7 +229,16 @@ int main(int argc, const char** argv)
     if (argc >= 2 && std::string(argv[1]) == "cli")
     {
         // argv[1] takes the place of the program name
-        return tapkee_cli_main(argc - 1, argv + 1);
+        if (const char* sd = std::getenv("C20_SEED"))
+        {
+            c20::seed_override = true;
+            c20::seed_value = static_cast<unsigned>(std::strtoul(sd, nullptr, 10));
+            c20::reseed(c20::seed_value);
+        }
+        int rc = tapkee_cli_main(argc - 1, argv + 1);
+        if (c20::seed_override)
+            std::fprintf(stderr, "C20-SEED %u srand-calls %lu\n", c20::seed_value, c20::srand_calls);
+        return rc;
     }
     if (argc >= 2 && std::string(argv[1]) == "lib")
         return c20::lib_main();
